@@ -138,6 +138,27 @@ def selftest_tables():
                         assert e == g, ("with_point", patt, shading, t, c, e, g)
 
 
+def selftest_local():
+    """LocalSem (extensions of the pattern) against the global tables: same containing texts,
+    same verdict for every single added cell, for all shadings of 10 and a slice of those of 021."""
+    for patt, stride in (((1, 0), 1), ((0, 2, 1), 97)):
+        k = len(patt)
+        loc = X.LocalSem(patt, 2)
+        glob = X.Sem(patt, RICH[patt])
+        index = {t: i for i, t in enumerate(TEXTS)}
+        sel = [index[t] for t in loc.texts]
+        for shm in range(0, 1 << ((k + 1) ** 2), stride):
+            base, forced = loc.analyse(shm)
+            g = glob.contain(shm)
+            assert base == loc.contain(shm)
+            assert all(bool(g >> gi & 1) == bool(base >> li & 1) for li, gi in enumerate(sel)), (patt, shm)
+            small = sum(1 << gi for gi in sel)
+            for c in R.all_cells(k):
+                cb = X.cbit(k, c)
+                lost_glob = (g & ~glob.contain(shm | cb)) & small
+                assert bool(lost_glob) == bool(forced & cb) == (loc.lost(shm, cb) is not None), (patt, shm, c)
+
+
 # --------------------------------------------------------------------------------------------
 # one unit
 # --------------------------------------------------------------------------------------------
@@ -210,7 +231,10 @@ def eval_unit(part, lib, patt, shm, cfg, warm=None):
     need_queries = "table" in subs
     if "lemma1" in subs or need_queries:
         report = "lemma1" in subs
-        for c in cells:
+        lemma_cells = cells
+        if cfg.get("cells") == "point-adjacent" and not need_queries:
+            lemma_cells = sorted(X.ref_non_pointless(patt))
+        for c in lemma_cells:
             try:
                 got = p.can_shade(c)
             except Exception as exc:  # noqa
@@ -581,12 +605,16 @@ def run(ctx, only=None):
     ctx.assumptions = [
         "reference containment: mc/refmodel.py occurrences + cell_of, grouped into occupancy tables (mc/ref_c18.py)",
         "'does not change the set of containing permutations' is decided on S<=%d only" % N,
+        "for patterns of length k = 5, 6 it is decided on the extensions of the pattern by <= 2 points "
+        "(all of S<=k+2 that contain it): enough to refute a licence whenever one entry in the box plus "
+        "one further entry elsewhere witnesses the loss; witnesses needing >= 3 extra entries are not seen",
         "add_point on a shaded cell (documented assert) is outside the property and not called",
     ]
     build_tables(ctx, N, maxk)
     selftest_tables()
+    selftest_local()
     ctx.section("tables", texts=len(TEXTS), classical_patterns=len(RICH),
-                selftest="tables == definitions for all of Mesh<=2 on S<=4")
+                selftest="tables == definitions for all of Mesh<=2 on S<=4; extension tables == global tables")
 
     small = {patt: all_masks(len(patt)) for k in range(0, 3) for patt in R.perms(k)}
     CFG["mesh<=2"] = {"subs": subs, "pairs": "all", "cell_sizes": (1, 2, 3), "N": N, "maxk": maxk,
@@ -631,6 +659,44 @@ def run(ctx, only=None):
         bounds["family4"] = ("%d patterns of length 4: <=1 or >=24 shaded cells + code-base shadings; "
                              "adjacent pairs only; no add_increase/decrease (needs patterns of length 6)"
                              % sum(len(v) for v in fam4.values()))
+    # long patterns (grids wider than 5x5), sparse shadings, every underlying permutation: the
+    # lemma's side conditions each speak about ONE shaded box and its partner across a line, so
+    # shadings with <= 2 boxes exercise every side condition alone and every pair of them, at every
+    # position of the grid (incl. the far border) and in all four rotated frames.  Texts = all
+    # extensions of the pattern by <= 2 points: one entry in the newly shaded box + one blocker.
+    lem3 = frozenset(s for s in subs if s in ("lemma1", "simul", "table"))
+    lem1 = frozenset(s for s in subs if s == "lemma1")
+    if lem3:
+        m5 = by_size(sparse_dense(5, 1, 37))
+        one5 = {p_: m5 for p_ in R.perms(5)}
+        CFG["len5<=1"] = {"subs": lem3, "pairs": "adjacent", "cell_sizes": (), "N": 7, "maxk": maxk,
+                          "local": 2}
+        shards += make_shards(one5, "len5<=1", 37)
+        bounds["len5<=1"] = ("all 120 x %d mesh patterns of length 5 with <= 1 shaded box: can_shade on all "
+                             "36 cells, can_simul_shade on both orders of all adjacent pairs, "
+                             "shadable_boxes; soundness on every extension of the pattern by <= 2 points "
+                             "(= all of S<=7 containing it)" % len(one5[(0, 1, 2, 3, 4)]))
+    two_subs = lem1 if quick else lem3
+    if two_subs:
+        m5 = [m for m in by_size(sparse_dense(5, 2, 37)) if bin(m).count("1") == 2]
+        two5 = {p_: m5 for p_ in R.perms(5)}
+        CFG["len5=2"] = {"subs": two_subs, "pairs": "adjacent", "cell_sizes": (), "N": 7, "maxk": maxk,
+                         "local": 2, "cells": "point-adjacent" if quick else "all"}
+        shards += make_shards(two5, "len5=2", 210)
+        bounds["len5=2"] = ("all 120 x %d mesh patterns of length 5 with exactly 2 shaded boxes: %s; same "
+                            "texts" % (len(two5[(0, 1, 2, 3, 4)]),
+                                       "can_shade on every cell with a pattern point on a corner (16-20 of the 36)" if quick else
+                                       "can_shade, can_simul_shade (adjacent pairs), shadable_boxes"))
+    if not quick and lem3:
+        m6 = by_size(sparse_dense(6, 1, 50))
+        one6 = {p_: m6 for p_ in R.perms(6)}
+        CFG["len6<=1"] = {"subs": lem3, "pairs": "adjacent", "cell_sizes": (), "N": 8, "maxk": maxk,
+                          "local": 2}
+        shards += make_shards(one6, "len6<=1", 50)
+        bounds["len6<=1"] = ("all 720 x %d mesh patterns of length 6 with <= 1 shaded box: can_shade on all "
+                             "49 cells, can_simul_shade on adjacent pairs, shadable_boxes; soundness on "
+                             "every extension by <= 2 points (= all of S<=8 containing it)"
+                             % len(one6[(0, 1, 2, 3, 4, 5)]))
     ctx.bounds.update(bounds)
     e0 = ctx.evals
     ctx.pmap(shard_units, shards)
@@ -655,12 +721,15 @@ def replay(ctx, rec):
     patt = tuple(case["patt"])
     k = len(patt)
     N = int(case.get("N", 6))
-    if not TEXTS or len(TEXTS) != len(X.texts_upto(N)):
+    local = case.get("local")
+    if not local and (not TEXTS or len(TEXTS) != len(X.texts_upto(N))):
         build_tables(None, N, min(5, max(k + 2, 3)))
     family_of = {"addpoint_dir": "addpoint", "lemma1_point": "lemma1", "simul_point": "simul", "table_key": "table",
                  "table_complete": "table"}
     subs = frozenset([family_of.get(sub, sub)]) if sub != "construct" else frozenset(ALL_SUBS)
     cfg = {"subs": subs, "pairs": "all", "cell_sizes": (1, 2, 3), "N": N, "maxk": 5, "kw": True}
+    if local:
+        cfg.update(local=int(local), pairs="adjacent")
     if sub in ("render",) and isinstance(case.get("cell_size"), int):
         cfg["cell_sizes"] = (case["cell_size"],)
     lib = Lib()
